@@ -189,6 +189,11 @@ pub enum Verdict {
 }
 
 /// A worker's solver session plus its local report.
+/// process-wide number of IEEE refinements left (each one is a bit-precise query of up to `ieee_timeout_ms` in a fresh
+/// solver process; on a tree that breaks a property thousands of abstract counterexamples can arise, a few confirmed
+/// ones are all that is needed)
+pub static IEEE_LEFT: std::sync::atomic::AtomicI64 = std::sync::atomic::AtomicI64::new(48);
+
 pub struct Chk {
     pub rep: Report,
     pub sess: Session,
@@ -198,17 +203,22 @@ pub struct Chk {
     pub cross_every: u64,
     /// ask the other installed solvers when the primary one answers unknown
     pub fallbacks: bool,
+    /// mode O: re-decide an abstract counterexample with IEEE-754 semantics for + - * / (see Session::ieee_refine)
+    pub ieee_refine: bool,
+    pub ieee_timeout_ms: u64,
+    /// refinements left for this configuration (each is a bit-precise query in a fresh solver process)
+    pub ieee_left: u32,
     sampled: BTreeMap<String, usize>,
 }
 impl Chk {
     pub fn new(mode: Mode, timeout_ms: u64) -> Chk {
-        Chk { rep: Report::default(), sess: Session::new(mode, timeout_ms), cfg_name: String::new(), max_samples_per_kind: 1, cross_every: 97, fallbacks: true, sampled: BTreeMap::new() }
+        Chk { rep: Report::default(), sess: Session::new(mode, timeout_ms), cfg_name: String::new(), max_samples_per_kind: 1, cross_every: 97, fallbacks: true, ieee_refine: true, ieee_timeout_ms: 10_000, ieee_left: 3, sampled: BTreeMap::new() }
     }
     pub fn new_with_solver(mode: Mode, timeout_ms: u64, solver: &str) -> Chk {
         Chk::with_session(Session::with_solver(mode, timeout_ms, solver, (11, 53)))
     }
     pub fn with_session(sess: Session) -> Chk {
-        Chk { rep: Report::default(), sess, cfg_name: String::new(), max_samples_per_kind: 1, cross_every: 97, fallbacks: true, sampled: BTreeMap::new() }
+        Chk { rep: Report::default(), sess, cfg_name: String::new(), max_samples_per_kind: 1, cross_every: 97, fallbacks: true, ieee_refine: true, ieee_timeout_ms: 10_000, ieee_left: 3, sampled: BTreeMap::new() }
     }
     pub fn begin_config(&mut self, name: &str) {
         self.cfg_name = name.to_string();
@@ -285,6 +295,30 @@ impl Chk {
             }
             Answer::Sat => {
                 self.sample(kind, name, "unsat", "sat");
+                if self.sess.mode == Mode::O && self.ieee_refine && !self.sess.ieee && self.ieee_left > 0 && IEEE_LEFT.fetch_sub(1, std::sync::atomic::Ordering::SeqCst) > 0 {
+                    self.ieee_left -= 1;
+                    // the abstraction (uninterpreted arithmetic) admits a counterexample: decide the same query with
+                    // IEEE-754 semantics for + - * /; unsat = an artefact of the abstraction, sat = a model of real
+                    // doubles that the caller replays natively
+                    let t0 = Instant::now();
+                    let (r, rvals) = self.sess.ieee_refine(asserts, get, self.ieee_timeout_ms);
+                    self.rep.solver_ms += t0.elapsed().as_millis() as u64;
+                    match r {
+                        Answer::Unsat => {
+                            *self.rep.kinds.entry("abstract counterexample refuted by the IEEE refinement".into()).or_default() += 1;
+                            self.rep.discharged += 1;
+                            self.rep.nontrivial_keys.insert(format!("{}|{}", self.cfg_name, name));
+                            return Verdict::Holds;
+                        }
+                        Answer::Sat => {
+                            *self.rep.kinds.entry("abstract counterexample confirmed by the IEEE refinement".into()).or_default() += 1;
+                            return Verdict::Cex(if get.is_empty() { vals } else { rvals });
+                        }
+                        Answer::Unknown(_) => {
+                            *self.rep.kinds.entry("IEEE refinement gave no verdict (abstract counterexample kept)".into()).or_default() += 1;
+                        }
+                    }
+                }
                 Verdict::Cex(vals)
             }
             Answer::Unknown(why) => {
@@ -395,6 +429,12 @@ where
     let budget = std::env::var("VERIF_ENGINE_SECONDS").ok().and_then(|s| s.parse::<u64>().ok()).unwrap_or(u64::MAX);
     let t_start = Instant::now();
     let skipped = Mutex::new(0usize);
+    // once a handful of violations have been reproduced against the real crate the property is refuted on this tree:
+    // no further configuration is started (on such trees every remaining one tends to produce abstract counterexamples
+    // by the thousand); the report says how many were left out
+    let refuted = std::sync::atomic::AtomicBool::new(false);
+    let not_started = Mutex::new(0usize);
+    let n_confirmed = Mutex::new(0usize);
     std::thread::scope(|s| {
         for _ in 0..threads.max(1).min(items.len().max(1)) {
             s.spawn(|| loop {
@@ -409,6 +449,10 @@ where
                 }
                 if t_start.elapsed().as_secs() >= budget {
                     *skipped.lock().unwrap() += 1;
+                    continue;
+                }
+                if refuted.load(std::sync::atomic::Ordering::SeqCst) {
+                    *not_started.lock().unwrap() += 1;
                     continue;
                 }
                 with_ctx(|c: &mut Ctx| {
@@ -431,12 +475,25 @@ where
                         r
                     }
                 };
-                total.lock().unwrap().merge(rep);
+                let confirmed = rep.findings.iter().any(|f| f.reproduced == Some(true));
+                let mut t = total.lock().unwrap();
+                t.merge(rep);
+                if confirmed {
+                    let mut n = n_confirmed.lock().unwrap();
+                    *n += 1;
+                    if *n >= 4 {
+                        refuted.store(true, std::sync::atomic::Ordering::SeqCst);
+                    }
+                }
             });
         }
     });
     let mut total = total.into_inner().unwrap();
     let sk = skipped.into_inner().unwrap();
+    let ns = not_started.into_inner().unwrap();
+    if ns > 0 {
+        total.notes.push(format!("refuted: 4 configurations produced a violation that was reproduced against the real crate; {ns} of {} configurations were not started", items.len()));
+    }
     if sk > 0 {
         total.errors.push(format!("engine time budget of {budget} s exhausted: {sk} of {} configurations were not started", items.len()));
     }
